@@ -112,7 +112,16 @@ def check_match(ctx, ev, cls, expect, rule="ALG-selection"):
     s = summarize(ctx, ev, dotted)
     construct = f"core.{cls}.match"
     loc = func_loc(ctx, dotted)
-    atoms, cs = cases_of(s.ret)
+    # equality / inequality of two Boolean conditions of the contract (c1 == c2, c1 != c2) is a compound condition, not an atom
+    from ..symeval import subst as _subst
+
+    def _booleq(x):
+        if x[0] == "cmp" and x[1] in ("==", "!=", "is", "is not") and expect["classify"](x) is None \
+                and expect["classify"](x[2]) is not None and expect["classify"](x[3]) is not None:
+            same = ("boolop", "or", (("boolop", "and", (x[2], x[3])), ("boolop", "and", (("unop", "not", x[2]), ("unop", "not", x[3])))))
+            return same if x[1] in ("==", "is") else ("unop", "not", same)
+        return None
+    atoms, cs = cases_of(_subst(s.ret, _booleq))
     names = {}
     for a in atoms:
         nm = expect["classify"](a)
